@@ -19,10 +19,12 @@ import (
 
 // Family is a bounded-model family file (spec/fam_*.json).
 type Family struct {
-	Name    string   `json:"name"`
-	Recipes []Recipe `json:"recipes"`
-	Tokens  []Tok    `json:"tokens"`
-	Attrs   map[string][]Attr `json:"attrs"` // attribute alphabet per element (MC_Attrs families)
+	Name      string            `json:"name"`
+	Recipes   []Recipe          `json:"recipes"`
+	Tokens    []Tok             `json:"tokens"`
+	Attrs     map[string][]Attr `json:"attrs"`     // attribute alphabet per element (MC_Attrs families)
+	Calls     []Call            `json:"calls"`     // builder call alphabet (MC_Policy family)
+	CtorPairs [][]Call          `json:"ctorpairs"` // constructor pairs (MC_Policy family)
 }
 
 func LoadFamily(path string) (*Family, error) {
@@ -35,27 +37,27 @@ func LoadFamily(path string) (*Family, error) {
 
 // ReplayFile is a self-contained reproduction of one real execution.
 type ReplayFile struct {
-	Property string  `json:"property"`
-	Key      string  `json:"key"`
-	Detail   string  `json:"detail"`
-	Recipe   Recipe  `json:"recipe"`
-	InputB64 string  `json:"input_b64"`
-	Input    string  `json:"input_printable"`
-	Output   string  `json:"output_printable"`
-	Source   string  `json:"source"` // which job produced it
+	Property string `json:"property"`
+	Key      string `json:"key"`
+	Detail   string `json:"detail"`
+	Recipe   Recipe `json:"recipe"`
+	InputB64 string `json:"input_b64"`
+	Input    string `json:"input_printable"`
+	Output   string `json:"output_printable"`
+	Source   string `json:"source"` // which job produced it
 }
 
 // RunResult aggregates a job.
 type RunResult struct {
-	Job         string        `json:"job"`
-	Cases       int           `json:"cases"`
-	Execs       int           `json:"execs"`
-	Dropped     int           `json:"dropped_variants"`
-	Nontrivial  int           `json:"distinct_nontrivial"`
-	Divergences int           `json:"divergences"`
-	DivSamples  []string      `json:"divergence_samples"`
+	Job         string         `json:"job"`
+	Cases       int            `json:"cases"`
+	Execs       int            `json:"execs"`
+	Dropped     int            `json:"dropped_variants"`
+	Nontrivial  int            `json:"distinct_nontrivial"`
+	Divergences int            `json:"divergences"`
+	DivSamples  []string       `json:"divergence_samples"`
 	Violations  []ViolationRec `json:"violations"`
-	Samples     []interface{} `json:"samples"`
+	Samples     []interface{}  `json:"samples"`
 	Branches    map[string]int `json:"branches,omitempty"`
 	Applicable  map[string]int `json:"applicable"` // per property: executions on which its antecedent held
 	Extra       interface{}    `json:"extra,omitempty"`
@@ -366,6 +368,7 @@ func cmdFamFacts(args []string) int {
 		return 2
 	}
 	f := NewFacts()
+	f.AddRecipe(Recipe(fam.Calls))
 	for _, r := range fam.Recipes {
 		f.AddRecipe(r)
 		ap := BuildAP(r)
@@ -389,6 +392,9 @@ func cmdFamFacts(args []string) int {
 
 // cmdRepro: vh repro <replay.json> — rebuild the policy, rerun the input, evaluate the oracle.
 func cmdRepro(args []string) int {
+	if strings.Contains(args[0], "/C17-") {
+		return reproC17(args[0])
+	}
 	var rf ReplayFile
 	if err := LoadJSONFile(args[0], &rf); err != nil {
 		fmt.Fprintln(os.Stderr, "repro:", err)
